@@ -93,7 +93,7 @@ def main():
 
         segs = ["..", ".", "", "sub", "deep", "t.csv", "u.csv", "t.csv.dds", "t.csv.das", "u.csv.dods", "notes.txt", "notes.txt.dds",
                 "catalog.xml", "%2e%2e", "..%2F", "x.dat", "x.dat.dds", ".hidden", "arch.tar.gz", "a.b", "nope", "mycatalog.xml",
-                "t.csv.xyz", "t", "%2E"]
+                "t.csv.xyz", "t", "%2E", "%252e%252e", "%252E%252E", "..%252F", "%25", "s.txt.dds", "%2e%2e%2f"]
         for top, rootname, root, entries in layouts:
             sib_segs = [rootname + "2", rootname + "_old", "other", "s.txt", rootname]
             allsegs = segs + sib_segs
@@ -111,7 +111,9 @@ def main():
                                            for _ in range(L)))
             reqs += ["", "/", "//", "/../%s2/s.txt" % rootname, "/../%s2/" % rootname, "/../%s2/catalog.xml" % rootname,
                      "/sub/../../%s2/t.csv.dds" % rootname, "/..", "/../" + rootname + "/t.csv", "//etc/passwd", "/nodir/catalog.xml",
-                     "/sub/catalog.xml", "/catalog.xml", "/../catalog.xml", "/../../../../../../etc/passwd"]
+                     "/sub/catalog.xml", "/catalog.xml", "/../catalog.xml", "/../../../../../../etc/passwd",
+                     "/%252e%252e/" + rootname + "2/t.csv.dds", "/%252e%252e/other/t.csv.dds", "/sub/%252e%252e/%252e%252e/other/t.csv.das",
+                     "/..%252Fother/t.csv.dods", "/%252e%252e/other/s.txt", "/%252e%252e/other/"]
             app = DapServer(root)
             root_comps = [c for c in root.split("/") if c]
             fs_list = []
